@@ -18,17 +18,18 @@ pub fn space_for(tier: Tier) -> Space {
     let mut s = Space::new();
     match tier {
         Tier::Quick => {
-            s.tok("T", &gen::T_FULL, 3, 2048).tok("T0", &gen::T_CORE, 4, 2048).tok("TU", &gen::T_UNI, 3, 2048).tok("TQ", &gen::T_QUANT, 5, 2048).tok("TG", &gen::T_GROUP, 6, 2048).tok("TX", &gen::T_XCLS, 4, 2048);
+            s.tok("T", &gen::T_FULL, 3, 2048).tok("T0", &gen::T_CORE, 4, 2048).tok("TU", &gen::T_UNI, 3, 2048).tok("TQ", &gen::T_QUANT, 5, 2048).tok("TG", &gen::T_GROUP, 6, 2048).tok("TX", &gen::T_XCLS, 4, 2048).tok("TC", &gen::T_CLS, 6, 2048);
             s.ast("K", 4, 512).ast("Q", 3, 512).ast("CL", 3, 512).ast("G", 4, 512).ast("AN", 4, 512);
         }
         Tier::Thorough => {
-            s.tok("T", &gen::T_FULL, 4, 4096).tok("T0", &gen::T_CORE, 5, 4096).tok("TU", &gen::T_UNI, 4, 4096).tok("TQ", &gen::T_QUANT, 6, 4096).tok("TG", &gen::T_GROUP, 7, 4096).tok("TX", &gen::T_XCLS, 5, 4096);
+            s.tok("T", &gen::T_FULL, 4, 4096).tok("T0", &gen::T_CORE, 5, 4096).tok("TU", &gen::T_UNI, 4, 4096).tok("TQ", &gen::T_QUANT, 6, 4096).tok("TG", &gen::T_GROUP, 7, 4096).tok("TX", &gen::T_XCLS, 5, 4096).tok("TC", &gen::T_CLS, 7, 4096);
             s.ast("K", 5, 512).ast("Q", 4, 512).ast("CL", 4, 512).ast("G", 5, 512).ast("AN", 5, 512).ast("CI", 4, 512).ast("U", 4, 512);
         }
     }
     s.list("flagstrings", 1 + 11 + 121 + 1331, 256);
     s.list("whitespace under x", xws_cases().len() as u64, 64);
     s.list("single-character edits", edit_cases().len() as u64, 64);
+    s.list("name namespaces", crate::refparse::CATS.len() as u64 + 8, 8);
     s
 }
 
@@ -184,6 +185,38 @@ impl Check for C07 {
                     }
                 }
                 out.sample(J::obj(vec![("pattern", J::s(text)), ("flags", J::s("x")), ("stripped", J::s(&stripped))]));
+            }
+            return;
+        }
+        if let SegKind::List { name: "name namespaces" } = seg.kind {
+            // category names and block names are separate namespaces, whatever was compiled before
+            const BLOCKS: [&str; 8] = ["Greek", "BasicLatin", "Latin-1Supplement", "Cyrillic", "Hebrew", "Arabic", "Thai", "Hiragana"];
+            let cats = crate::refparse::CATS;
+            for i in lo..hi {
+                let (first, second) = if (i as usize) < cats.len() {
+                    let c = cats[i as usize];
+                    (format!("\\p{{{}}}", c), format!("\\p{{Is{}}}", c))
+                } else {
+                    let b = BLOCKS[i as usize - cats.len()];
+                    (format!("\\p{{Is{}}}", b), format!("\\p{{{}}}", b))
+                };
+                for (text, want_ok) in [(&first, true), (&second, false), (&first, true), (&second, false)] {
+                    out.inc("states");
+                    let got = imp::compile(text, "", false);
+                    if got.is_crash() {
+                        out.inc("inconclusive_crash");
+                        continue;
+                    }
+                    out.inc("validated");
+                    out.inc("nontrivial");
+                    let case = Case::new(&scope_name, text, "").api("compile");
+                    match (want_ok, &got) {
+                        (true, Out::Ok(_)) | (false, Out::Err(_)) => {}
+                        (true, g) => out.fail("C07", &case, "RejectsValid", "Ok", &g.show(), "known name"),
+                        (false, _) => out.fail("C07", &case, "AcceptsInvalid", "Err(Syntax)", "Ok", &format!("a category name is not a block name and vice versa (compiled right after {:?})", first)),
+                    }
+                }
+                out.sample(J::obj(vec![("sequence", J::s(format!("{} then {}", first, second)))]));
             }
             return;
         }
